@@ -221,6 +221,8 @@ def step_key(line):
     f = line.split(" | ")
     if len(f) < 5:
         return line
+    if line.startswith("SCAN "):
+        return hashlib.md5((f[2] + "|" + f[1][f[1].find(" S "):]).encode()).hexdigest()
     pre = f[1]
     i = pre.find(" S ")
     krows = pre[:i].split(" ")
@@ -235,6 +237,8 @@ def step_key(line):
 
 def nontrivial(line):
     f = line.split(" | ")
+    if line.startswith("SCAN "):
+        return len(f) >= 5 and not f[3].startswith("L 0")
     if len(f) < 5:
         return False
     res = f[3]
